@@ -380,7 +380,30 @@ func (g *Gen) execCallPrefixed(c *ssa.CallCommon, in ssa.Instruction, rt types.T
 // applyMonitors: after acquiring a mutex field named in a //verif:monitor clause,
 // the guarded fields of the same object hold arbitrary values.
 func (g *Gen) applyMonitors(c *ssa.CallCommon) {
-	if g.con == nil || len(g.con.Monitors) == 0 || c.IsInvoke() || len(c.Args) == 0 {
+	if g.con == nil || len(g.con.Monitors) == 0 {
+		return
+	}
+	names := callNames(c)
+	for _, m := range g.con.Monitors {
+		if m.Call == "" {
+			continue
+		}
+		match := false
+		for _, n := range names {
+			if n == m.Call {
+				match = true
+			}
+		}
+		if !match {
+			continue
+		}
+		sc := g.specCtx(g.env, g.cur, g.init)
+		for _, te := range m.Targets {
+			g.havocLval(sc, te)
+		}
+		g.assumptions = appendUnique(g.assumptions, fmt.Sprintf("%s: interference at %s is limited to the listed locations (other goroutines follow the locking discipline)", g.fnName, m.Call))
+	}
+	if c.IsInvoke() || len(c.Args) == 0 {
 		return
 	}
 	f := c.StaticCallee()
@@ -392,7 +415,7 @@ func (g *Gen) applyMonitors(c *ssa.CallCommon) {
 		return
 	}
 	for _, m := range g.con.Monitors {
-		if m.Mutex != mname {
+		if m.Call != "" || m.Mutex != mname {
 			continue
 		}
 		st := base.Type().Underlying().(*types.Pointer).Elem()
